@@ -89,6 +89,9 @@ var (
 	ErrEmptyWorkloadID             = errors.New("workload ID is empty")
 	ErrEmptyEntrypointName         = errors.New("entrypoint name is empty")
 	ErrUnderlineInEntrypointName   = errors.New("entrypoint name has '_' character")
+	ErrInvalidAppName              = errors.New("app name has '/' character or is a dot name")
+	ErrInvalidEntrypointName       = errors.New("entrypoint name has '/' character or is a dot name")
+	ErrInvalidNodeName             = errors.New("node name has '/' character or is a dot name")
 	ErrEmptyRawEngineOp            = errors.New("raw engine op is empty")
 
 	// Store
